@@ -218,7 +218,8 @@ def ob_generics(run, mir, rp, fam):
         member = ex.project(s, ex.project(s, nx[-1]["ret"], ("v", "Some")), ("f", 0), "&TrueName") if nx else None
         tnf = e2.rust_struct("src/check/name/true_name/mod.rs", "TrueName")
         s_null = ex.project(s, member, ("f", tnf.index("is_nullable")), "bool") if member is not None else None
-        o_null = [e_["ret"] for e_ in p.events if e_["name"].split("::")[-1] == "is_nullable" and z3.is_bool(e_["ret"])]
+        # "the other argument admits None": a boolean the code computes from the other argument (Name::is_nullable, or any(..) over its members)
+        o_null = [e_["ret"] for e_ in p.events if (e_["name"].split("::")[-1] == "is_nullable" or e_["name"] == "Iterator::any") and z3.is_bool(e_["ret"])]
         null_ok = z3.BoolVal(True)
         if s_null is not None and z3.is_bool(s_null):
             null_ok = z3.Or(z3.Not(s_null), *o_null)
@@ -239,10 +240,20 @@ def ob_generics(run, mir, rp, fam):
     gf.add("list-of-int-into-list", "def y: Int := 2\ndef l: List[Int] := [1, y]", "accept")
     gf.add("tuple-of-int-into-tuple", "def y: Int := 2\ndef t: (Int, Int) := (1, y)", "accept")
     gf.add("list-literal-none-into-list", "def l: List[Int] := [1, None]", "reject")
+    gf.add("mixed-list-element-into-nullable", "def y: Int? := None\ndef l := [1, y]\ndef z: Int? := l[0]", "accept")
+    gf.add("mixed-list-copied", "def y: Int? := None\ndef l := [y, 1]\ndef m := l", "accept")
     e2.prove_each(run, ob2, ex, [], null_claims, {}, gf.as_replay("generic-nullability:"))
     if ob2.status == "discharged":
         k_, bad = gf.run()
         run.validated += k_
+        # a union with mixed nullability is compared member by member over hash sets: the verdict must not depend on the iteration order
+        from props import C12
+        for role_, src_, _e, _a in gf.items:
+            if role_.startswith("mixed-"):
+                outs = [C12.fresh((src_, False))[0] for _ in range(12)]
+                run.validated += len(outs)
+                if len(set(outs)) > 1:
+                    bad.append({"role": role_, "src": src_, "expected": "one verdict", "got": {o: outs.count(o) for o in set(outs)}, "output": ""})
         if bad:
             ob2.status = "pending"
             ob2.inconclusive(f"family disagrees although the kernel is as specified: {bad[:2]}")
